@@ -183,7 +183,28 @@ def correspondence(R, pid, cases, results, tier):
             worst[c["fn"]] = max(w, df)
         else:
             mism.append((i, mv, arm, df))
-    # re-examine mismatches: stable under a few-ulp perturbation of the input?
+    # (a) non-unique minimiser: d agrees but the points differ, and the MODEL's points are themselves a valid answer
+    #     (on their primitives, |p1-p2| = d, judged by the same exact oracle as the implementation's result): when a
+    #     pair has several closest pairs (contact along a segment, parallel features) rounding noise of 1e-15 decides
+    #     which candidate of an enumeration wins; only d is comparable then
+    from . import c10 as _c10
+    nonunique = 0
+    keep = []
+    for (i, mv, arm, df) in mism:
+        c, r = cases[i], results[i]
+        L = pl.scale_L(c["A"], c["B"])
+        iv = impl_obs(c, r)
+        if len(mv) == len(iv) and abs(mv[0] - iv[0]) <= CORR_TOL * L and all(math.isfinite(x) for x in mv):
+            fake = dict(d=float(mv[0]).hex(), pts=[[float(x).hex() for x in mv[1 + 3 * k:4 + 3 * k]] for k in range((len(mv) - 1) // 3)],
+                        n_out=r["n_out"], shapes=r["shapes"])
+            fails, _ = _c10.judge_py(c, fake)
+            if not fails:
+                nonunique += 1
+                continue
+        keep.append((i, mv, arm, df))
+    mism = keep
+    R.cov["model_nonunique_minimiser"] = nonunique
+    # (b) re-examine the rest: stable under a few-ulp perturbation of the input?
     unclear = 0
     real = []
     if mism:
